@@ -329,6 +329,33 @@ func TestC33(t *testing.T) {
 			}
 		}
 		judge(c)
+		if i%7 == 0 {
+			// exact fill: inputs that add up to the limit in every dimension, with all-zero
+			// inputs (which always fit) before, between and after them; also the all-zero limit
+			var e c33Case
+			if rng.IntN(4) != 0 {
+				parts := 1 + rng.IntN(6)
+				for p := 0; p < parts; p++ {
+					var d [5]uint64
+					for k := 0; k < 5; k++ {
+						if rng.IntN(2) == 0 {
+							d[k] = uint64(rng.IntN(50))
+						}
+						e.Limit[k] += d[k]
+					}
+					e.Dims = append(e.Dims, d)
+				}
+			}
+			for z := 0; z < 1+rng.IntN(3); z++ {
+				pos := rng.IntN(len(e.Dims) + 1)
+				if rng.IntN(2) == 0 {
+					pos = len(e.Dims)
+				}
+				e.Dims = append(e.Dims[:pos], append([][5]uint64{{}}, e.Dims[pos:]...)...)
+			}
+			judge(e)
+			r.Count("exact_fill_cases_with_zero_inputs", 1)
+		}
 	}
 	r.Finish(r.N(2000, 20000))
 }
